@@ -76,7 +76,9 @@ YamlVerdict(rec) ==
   IN IF rec.env.err.k # "syntax" THEN [v |-> "env_disagree"]
      ELSE IF o.fmt = "none" THEN [v |-> "mismatch", why |-> "no report"]
      ELSE LET p == rec.env.err.p
-              pb == ByteOfRune(t, p)
+              \* go-yaml does not count a byte order mark at the very start of the stream (every later U+FEFF is a character like any other)
+              bom == N >= 3 /\ ByteAt(t, 0) = 239 /\ ByteAt(t, 1) = 187 /\ ByteAt(t, 2) = 191
+              pb == ByteOfRune(t, IF bom THEN p + 1 ELSE p)
               impl == ReportAt(t, 0, N, p + 1)
               ideal == ReportAt(t, 0, N, pb + 1)
               byc == Has(rec, "err") /\ rec.err.k = "syntax"       \* offending byte known by construction
